@@ -2,6 +2,7 @@ package checks
 
 import (
 	"math/rand"
+	"strings"
 
 	"verif/engine/gast"
 	"verif/engine/mon"
@@ -73,7 +74,7 @@ func scopeStrata() []*gast.Grammar {
 func c02Strata() []*gast.Grammar {
 	mk := func(rules ...*gast.Rule) *gast.Grammar { return &gast.Grammar{Rules: rules} }
 	r := func(n string, e *gast.Expr) *gast.Rule { return &gast.Rule{Name: n, Expr: e} }
-	return append(append(scopeStrata(), c06Strata()[1:3]...), []*gast.Grammar{
+	return append(append(scopeStrata(), c06Strata()[1:4]...), []*gast.Grammar{
 		// predicate after an action: must see the current position and empty text
 		mk(r("S", gast.S(gast.Ref("A"), gast.L("b"), gast.AndC(2, mon.Spec{}), gast.Star(gast.Dot()))),
 			r("A", gast.A(gast.Plus(gast.L("a")), 1, mon.Spec{}))),
@@ -333,7 +334,15 @@ func C12(c *Ctx) {
 func c12Strata() []*gast.Grammar {
 	mk := func(rules ...*gast.Rule) *gast.Grammar { return &gast.Grammar{Rules: rules} }
 	r := func(n string, e *gast.Expr) *gast.Rule { return &gast.Rule{Name: n, Expr: e} }
+	// wide grammar: many terminals fail at one offset, many times over (non-left-factored alternatives)
+	var ops []*gast.Expr
+	for _, o := range strings.Split("+ - * / % ^ & | < > = ~ @ $ ? :", " ") {
+		ops = append(ops, gast.L(o))
+	}
+	wide := mk(r("S", gast.C(gast.S(gast.Ref("E"), gast.L(";")), gast.S(gast.Ref("E"), gast.L(".")), gast.S(gast.Ref("E"), gast.L("!")), gast.S(gast.Ref("E"), gast.Cl(gast.Chars(",#"))))),
+		r("E", gast.S(gast.Ref("T"), gast.Star(gast.S(gast.C(ops...), gast.Ref("T"))))), r("T", gast.C(gast.Plus(gast.Cl(gast.Chars("01"))), gast.S(gast.L("("), gast.Ref("E"), gast.L(")")))))
 	return []*gast.Grammar{
+		wide,
 		mk(r("S", gast.S(gast.Star(gast.C(gast.L("ab"), gast.S(gast.L("a"), gast.NotE(gast.L("b"))))), gast.NotE(gast.Dot())))),
 		mk(r("S", gast.S(gast.L("a"), gast.NotE(gast.NotE(gast.Cl(gast.Chars("xy")))), gast.AndE(gast.NotE(gast.L("xz"))), gast.Dot(), gast.NotE(gast.Dot())))),
 		mk(r("S", gast.S(gast.Opt(gast.L("\n")), gast.C(gast.L("a"), gast.Li("B"), gast.Cl(&gast.ClassSpec{Chars: []rune("a"), Inverted: true})), gast.L("c")))),
@@ -392,6 +401,12 @@ func c14Strata() []*gast.Grammar {
 			r("Inner", gast.Rec(gast.Ref("Body"), act(gast.Star(gast.Dot()), 1), "L2")),
 			r("Body", gast.C(act(gast.Plus(gast.Cl(gast.Chars("ab"))), 2), act(gast.Lab("v", gast.Thr("L1")), 3))),
 			r("RecOuter", act(gast.S(gast.L("!"), gast.Lab("v", gast.Thr("L2"))), 4))),
+		// skip-and-rethrow idiom: the recovery expression consumes one rune and throws its own label again until a sync token
+		mk(r("S", gast.S(gast.Rec(act(gast.Star(gast.Ref("Item")), 1), gast.Ref("Skip"), "L1"), gast.Star(gast.Dot()))),
+			r("Item", gast.C(act(gast.Cl(gast.Chars("ab")), 2), gast.S(gast.NotE(gast.L(";")), gast.Thr("L1")))),
+			r("Skip", act(gast.S(gast.NotE(gast.L(";")), gast.Dot(), gast.C(gast.AndE(gast.L(";")), gast.AndE(gast.Cl(gast.Chars("ab"))), gast.Thr("L1"))), 3))),
+		mk(r("S", gast.Rec(gast.Rec(gast.S(gast.L("<"), gast.Ref("B"), gast.L(">")), act(gast.S(gast.Cl(gast.Chars("0")), gast.Thr("L1")), 1), "L1"), act(gast.Star(gast.Cl(&gast.ClassSpec{Chars: []rune(">"), Inverted: true})), 2), "L1")),
+			r("B", gast.C(gast.Plus(gast.L("a")), gast.Thr("L1")))),
 		// throw inside repetition and predicate
 		mk(r("S", gast.Rec(gast.S(gast.Star(gast.C(gast.L("a"), gast.S(gast.AndE(gast.L("b")), gast.Thr("L2")))), gast.NotE(gast.Thr("L1")), gast.Star(gast.Dot())), act(gast.L("b"), 1), "L1", "L2"))),
 	}
